@@ -2,6 +2,7 @@ package checks
 
 import (
 	"fmt"
+	"go/token"
 	"math"
 	"os"
 	"strings"
@@ -49,9 +50,12 @@ var c17lits = []struct {
 	v  any
 }{
 	{"int", 42}, {"float", 2.5}, {"inf", math.Inf(1)}, {"nan", math.NaN()}, {"true", true}, {"null", nil}, {"empty", ""}, {"string", "text"},
-	{"newline", "a\nb"}, {"newline-decl", "x\nfunc (c *Gontainer) Extra() int { return 1 }"}, {"cr", "a\rb"}, {"comment-end", "a */ b"}, {"comment-start", "// x"},
+	{"newline", "a\nb"}, {"fn-args-on-two-lines", "%env(\"C17_HOST\",\n\"localhost\")%"}, {"fn-args-with-tab-and-cr", "%envInt(\t\"C17_PORT\",\r 80 )%"}, {"fn-args-with-comment-line", "%env(\"A\", // c\n\"b\")%"}, {"newline-decl", "x\nfunc (c *Gontainer) Extra() int { return 1 }"}, {"cr", "a\rb"}, {"comment-end", "a */ b"}, {"comment-start", "// x"},
 	{"backtick", "a`b"}, {"nul", "a\x00b"}, {"unicode", "é😀"}, {"quote", `say "hi"`}, {"pct", "100%%"}, {"ref", "%pInt%\n%pStr%"}, {"fn", `%env("A", "d")%`}, {"fn-comment", `%env("A") // x)%`}, {"fn-comment-multi", `a%envInt("A", 1) /* x */%b`}, {"fn-two-calls", `%env("A")("B")%`}, {"fn-binary", `%env("A") + env("B")%`},
 }
+
+// c17keySuffix makes the keys of the mode-parity violations specific to one (position, string) of the grammar-boundary family.
+var c17keySuffix = ""
 
 func init() {
 	Register(&Check{
@@ -77,7 +81,7 @@ func init() {
 					return n, s, false
 				}
 				if (n.Exit == 0) != (s.Exit == 0) {
-					c.Violation("verdict-differs", fmt.Sprintf("normal mode exits %d, --stub exits %d (%s)\nnormal:\n%s\nstub:\n%s", n.Exit, s.Exit, id, n.Out, s.Out), fm, nil)
+					c.Violation("verdict-differs"+c17keySuffix, fmt.Sprintf("normal mode exits %d, --stub exits %d (%s)\nnormal:\n%s\nstub:\n%s", n.Exit, s.Exit, id, n.Out, s.Out), fm, nil)
 					return n, s, false
 				}
 				if wantAccepted != nil && *wantAccepted != (n.Exit == 0) {
@@ -85,8 +89,21 @@ func init() {
 				}
 				if n.Exit != 0 {
 					c.Count("rejected_pairs")
+					// diagnostics of the formatting step quote positions in the generated text, which differs between the modes by
+					// design: only diagnostics of the earlier steps are comparable
+					fmtStage := func(ls []string) bool {
+						for _, l := range ls {
+							if strings.HasPrefix(l, "CodeFormatter.") {
+								return true
+							}
+						}
+						return false
+					}
+					if fmtStage(ErrorLines(n.Out)) && fmtStage(ErrorLines(s.Out)) {
+						return n, s, false
+					}
 					if strings.Join(ErrorLines(n.Out), "\n") != strings.Join(ErrorLines(s.Out), "\n") {
-						c.Violation("diagnostics-differ", "diagnostics differ between the modes ("+id+")", fm, nil)
+						c.Violation("diagnostics-differ"+c17keySuffix, "diagnostics differ between the modes ("+id+")\nnormal:\n"+strings.Join(ErrorLines(n.Out), "\n")+"\nstub:\n"+strings.Join(ErrorLines(s.Out), "\n"), fm, nil)
 					}
 					return n, s, false
 				}
@@ -176,7 +193,7 @@ func init() {
 			// boundary strings (empty, blank, a digit, a separator) in every grammar position of C11: whatever the verdict
 			// is, it is the same in both modes
 			for _, p := range c11positions() {
-				for _, x := range []string{"", " ", "\n", "1", "a.", ".", "*", `"`, "a b", "é"} {
+				for _, x := range []string{"", " ", "\n", "1", "a.", ".", "*", `"`, "a b", "é", "break", "case", "chan", "const", "continue", "default", "defer", "else", "fallthrough", "for", "func", "go", "goto", "if", "import", "interface", "map", "package", "range", "return", "select", "struct", "switch", "type", "var", "nil", "true", "iota", "string", "error", "any", "init", "main", "_"} {
 					p, x := p, x
 					id := fmt.Sprintf("grammar-boundary/%s/%q", p.id, x)
 					w.Case(id, func(c *C) {
@@ -184,6 +201,11 @@ func init() {
 						if flags != nil {
 							return
 						}
+						c17keySuffix = fmt.Sprintf(":%s=%s", p.id, x)
+						if token.IsKeyword(x) {
+							c17keySuffix = ":go-keyword-in-" + p.id
+						}
+						defer func() { c17keySuffix = "" }()
 						pair(c, id, []File{{"c.yaml", cfg.YAML()}}, false, nil)
 					})
 				}
